@@ -16,6 +16,7 @@ type DeviceCfg struct {
 	Protocol string   `json:"protocol,omitempty"`
 	Doors    []string `json:"doors,omitempty"`
 	Raw      bool     `json:"raw,omitempty"` // build the Device literal directly instead of NewDevice (keeps Protocol verbatim)
+	NilTZ    bool     `json:"niltz,omitempty"` // raw literal with a nil TimeZone
 	TZ       string   `json:"tz,omitempty"`  // IANA zone given as the controller's time zone ("" = none: UTC for a literal, nil for NewDevice)
 }
 
@@ -71,6 +72,7 @@ type Step struct {
 	Holds      []time.Duration `json:"holds,omitempty"` // simulated time the harness spends in the k-th callback
 	StopAfter  time.Duration   `json:"stopafter,omitempty"`
 	Target     [2]int          `json:"target,omitempty"`     // stop: (task, step) of the listen step
+	StopPending bool          `json:"stoppending,omitempty"` // listen: the stop signal is already in the channel when Listen is called
 	OnErrFalse bool            `json:"onerrfalse,omitempty"` // listen: the application's OnError returns false
 	SameQ      bool            `json:"sameq,omitempty"`      // listen: the application passes the signal channel of its previous Listen call again
 
